@@ -71,13 +71,20 @@ def run(chk, args):
     chk.cov["expected_classes"] = classes
     chk.cov["exhaustive"] = True
     chk.cov["traces_validated_against_impl"] = 0
+    # 3. endpoint equivalence: TLC behaviours of spec/Broker replayed twice on the real broker (lead's part)
+    import brokerlib
+    counts = {"Gen_small": 80, "Gen_core": 160} if chk.tier == "quick" else {"Gen_small": 400, "Gen_core": 1500, "Gen_big": 1000}
+    n = brokerlib.twin_equivalence(chk, "C11", "amp", counts, chk.seed + 11)
+    if n < 50:
+        chk.fail("vacuous: only %d AMP twin runs" % n)
+        return
     chk.cov["rule"] = ("cases are TLC initial states of spec/AmpPath, spec/CacheURL, spec/Rendezvous. Non-trivial: a path of more than one "
                        "token; every domain-prefix case; a URL case with a faithful cache form or a non-empty publisher path; an exchange "
                        "with a front, a cache, a status other than 200 or a body within one byte of the limit or beyond")
     chk.assumptions += ["base64url, punycode (golang.org/x/net/idna), SHA-256 and base32 are uninterpreted in the specifications and taken from the libraries by the driver",
                         "payload bytes, the spelling of abstract characters/segments and body reader scripts are seeded pseudo-random choices",
                         "the http.RoundTripper is in memory: TLS, SNI and connection reuse are outside this check",
-                        "the endpoint equivalence /client vs /amp/client/ is checked with the Broker specification, not here"]
+                        "endpoint equivalence /client vs /amp/client/: gated replays of spec/Broker behaviours under the fake clock, all client polls through /amp/client/ vs all through POST /client, responses compared after de-armoring"]
 
 
 def generate(chk, specdir, module, cfg, least):
